@@ -194,6 +194,87 @@ example : (∃ res, checkProof (Toy.rules []) ⟨false, false, 0⟩ 5 exExp = .o
     ((Toy.rules []).restrict 0).eval "verif_exp" (.list [.list [.list [], .num 0], .list []]) [] = .error (.other 0) := by
   refine ⟨⟨_, rfl, rfl⟩, ⟨_, rfl, rfl⟩, rfl⟩
 
+/-! ### `ProofReport` counters -/
+
+/-- The report counters as the model derives them from the trace (`countsOf`, compared with
+`rpt.thm_steps / prim_steps / macro_steps / macros_eval / macros_expand` of the implementation on
+every run): each counted step is an event with a computed sequent, a macro listed as evaluated has
+level ≤ `check_level`, a macro listed as expanded does not. -/
+theorem report_counts_exact (R : Rules) (lvl : Nat) (trace : List Ev) :
+    (countsOf R lvl trace).thm + (countsOf R lvl trace).prim + (countsOf R lvl trace).mac
+      ≤ (trace.filter (fun e => e.computed.isSome)).length ∧
+    (∀ n ∈ (countsOf R lvl trace).evald, ∃ l, R.kind n = .macro l ∧ levelOk l lvl = true) ∧
+    (∀ n ∈ (countsOf R lvl trace).expanded, ∃ l, R.kind n = .macro l ∧ levelOk l lvl = false) := by
+  have key : ∀ (tr : List Ev) (c : Counts) (k : Nat),
+      c.thm + c.prim + c.mac ≤ k →
+      (∀ n ∈ c.evald, ∃ l, R.kind n = .macro l ∧ levelOk l lvl = true) →
+      (∀ n ∈ c.expanded, ∃ l, R.kind n = .macro l ∧ levelOk l lvl = false) →
+      (tr.foldl (countEv R lvl) c).thm + (tr.foldl (countEv R lvl) c).prim + (tr.foldl (countEv R lvl) c).mac
+        ≤ k + (tr.filter (fun e => e.computed.isSome)).length ∧
+      (∀ n ∈ (tr.foldl (countEv R lvl) c).evald, ∃ l, R.kind n = .macro l ∧ levelOk l lvl = true) ∧
+      (∀ n ∈ (tr.foldl (countEv R lvl) c).expanded, ∃ l, R.kind n = .macro l ∧ levelOk l lvl = false) := by
+    intro tr
+    induction tr with
+    | nil => intro c k h1 h2 h3; exact ⟨by simpa using h1, h2, h3⟩
+    | cons e tr ih =>
+      intro c k h1 h2 h3
+      simp only [List.foldl_cons]
+      cases hc : e.computed with
+      | none =>
+        have : countEv R lvl c e = c := by simp [countEv, hc]
+        rw [this]
+        simpa [List.filter, hc] using ih c k h1 h2 h3
+      | some r =>
+        have facts : (countEv R lvl c e).thm + (countEv R lvl c e).prim + (countEv R lvl c e).mac ≤ k + 1 ∧
+            (∀ n ∈ (countEv R lvl c e).evald, ∃ l, R.kind n = .macro l ∧ levelOk l lvl = true) ∧
+            (∀ n ∈ (countEv R lvl c e).expanded, ∃ l, R.kind n = .macro l ∧ levelOk l lvl = false) := by
+          by_cases ht : e.rule = "theorem"
+          · simp only [countEv, hc, ht, if_true]; exact ⟨by first | omega | (simp; omega), h2, h3⟩
+          · by_cases hv : (e.rule = "variable" || e.rule = "subproof") = true
+            · simp only [countEv, hc, ht, hv, if_true, if_false]; exact ⟨by first | omega | (simp; omega), h2, h3⟩
+            · cases hk : R.kind e.rule with
+              | prim => simp only [countEv, hc, ht, hv, hk, if_false]; exact ⟨by first | omega | (simp; omega), h2, h3⟩
+              | unknown => simp only [countEv, hc, ht, hv, hk, if_false]; exact ⟨by first | omega | (simp; omega), h2, h3⟩
+              | «macro» l =>
+                by_cases hl : levelOk l lvl = true
+                · simp only [countEv, hc, ht, hv, hk, hl, if_true, if_false]
+                  refine ⟨by first | omega | (simp; omega), ?_, h3⟩
+                  intro n hn
+                  have hn' : n ∈ c.evald ∨ n = e.rule := by
+                    simp only [addName] at hn
+                    by_cases hcn : c.evald.contains e.rule = true
+                    · simp only [hcn, if_true] at hn; exact Or.inl hn
+                    · simp only [hcn] at hn
+                      rcases List.mem_append.mp hn with hn | hn
+                      · exact Or.inl hn
+                      · exact Or.inr (by simpa using hn)
+                  rcases hn' with hn' | hn'
+                  · exact h2 n hn'
+                  · subst hn'; exact ⟨l, hk, hl⟩
+                · simp only [countEv, hc, ht, hv, hk, hl, if_false]
+                  refine ⟨by first | omega | (simp; omega), h2, ?_⟩
+                  intro n hn
+                  have hn' : n ∈ c.expanded ∨ n = e.rule := by
+                    simp only [addName] at hn
+                    by_cases hcn : c.expanded.contains e.rule = true
+                    · simp only [hcn, if_true] at hn; exact Or.inl hn
+                    · simp only [hcn] at hn
+                      rcases List.mem_append.mp hn with hn | hn
+                      · exact Or.inl hn
+                      · exact Or.inr (by simpa using hn)
+                  rcases hn' with hn' | hn'
+                  · exact h3 n hn'
+                  · subst hn'; exact ⟨l, hk, by simpa using hl⟩
+        have := ih (countEv R lvl c e) (k + 1) facts.1 facts.2.1 facts.2.2
+        simpa [List.filter, hc, Nat.add_assoc, Nat.add_comm 1] using this
+  have := key trace ⟨0, 0, 0, [], []⟩ 0 (by simp) (by simp) (by simp)
+  simpa [countsOf] using this
+
+example : countsOf (Toy.rules []) 0
+    [⟨[0], "verif_ax", some ⟨[], 1⟩, ⟨[], 1⟩⟩, ⟨[1, 0], "assume", some ⟨[2], 2⟩, ⟨[2], 2⟩⟩,
+     ⟨[1], "verif_exp", some ⟨[2], 2⟩, ⟨[2], 2⟩⟩, ⟨[2], gapRule, none, ⟨[], 3⟩⟩]
+    = ⟨0, 1, 1, ["verif_ax"], ["verif_exp"]⟩ := by decide
+
 /-! ### `checked_extend` -/
 
 /-- One extension offered with a proof and installed without error: the proof is accepted by
